@@ -136,6 +136,21 @@ def check_produced_distance(c):
     if hx is None or hy is None:
         return ALLOWED
     check_distance({"buckets": b, "window": w, "chklen": ck, "x": hx, "y": hy})
+    # the objects that COMPUTED the digests (not re-loaded ones) in every combination with bytes / re-loaded objects
+    tx, ty = guard(TLSH, b, w, ck), guard(TLSH, b, w, ck)
+    guard(tx, c["dx"], True)
+    guard(ty, c["dy"], True)
+    ry = guard(guard(TLSH, b, w, ck).from_hash, hy)
+    exp = R.tlsh_distance(hx, hy, ck)
+    for name, (a, b_) in {"computed,computed": (tx, ty), "computed,bytes": (tx, hy), "bytes,computed": (hx, ty), "computed,reloaded": (tx, ry),
+                          "reloaded,computed": (ry, tx)}.items():
+        d = guard(tdistance, a, b_)
+        e = exp if name != "reloaded,computed" else R.tlsh_distance(hy, hx, ck)
+        if d != e:
+            raise Violation("distance(%s)!=model" % name, e, d)
+    eq(guard(tdistance, tx, hx), 0, "distance(computed x, bytes x)!=0")
+    eq(guard(tdistance, hx, tx), 0, "distance(bytes x, computed x)!=0")
+    eq(guard(tx.distance_to, hx), 0, "distance_to(own digest)!=0")
 
 
 def produced_strategy(tier):
